@@ -1,16 +1,18 @@
 #!/bin/bash
-# usage: tools/mutsweep.sh <tier> <prop>...   — run each property's check against scratch copies of /repo with each seeded change applied
+# usage: tools/mutsweep.sh <tier> <glob of /verif/seeded dirs, e.g. 'C0*-mutC'>...   — run each seeded change's property check against a scratch copy of /repo with the change applied
 tier=$1; shift
 mkdir -p /tmp/mutrepo
-for p in "$@"; do
-  for d in /tmp/wt/$p/_out/mut* /verif/seeded/$p-*/; do
+for pat in "$@"; do
+  for d in /verif/seeded/$pat; do
     [ -f "$d/patch.diff" ] || continue
-    m=$(basename $d)
-    c=/tmp/mutrepo/$p-$m
+    name=$(basename $d); p=${name%%-*}
+    c=/tmp/mutrepo/$name
     rm -rf $c && mkdir -p $c && (cd /repo && git archive HEAD | tar -x -C $c) && cd $c && git init -q . >/dev/null 2>&1
-    if git apply --check "$d/patch.diff" 2>/dev/null; then git apply "$d/patch.diff"; elif patch -p1 --dry-run -s < "$d/patch.diff" >/dev/null 2>&1; then patch -p1 -s < "$d/patch.diff"; else echo "$p $m PATCH-DOES-NOT-APPLY"; rm -rf $c; continue; fi
+    if git apply --check "$d/patch.diff" 2>/dev/null; then git apply "$d/patch.diff"; else echo "$name PATCH-DOES-NOT-APPLY"; rm -rf $c; continue; fi
+    s=$(date +%s)
     out=$(cd /verif && FLYT_REPO=$c ./check $p $tier 2>&1 | grep -E "VIOLATION|held on|KNOWN" | head -3 | tr '\n' ' ')
-    echo "$p $m :: $out"
+    e=$(date +%s)
+    echo "$name $((e-s))s :: $out"
     rm -rf $c
   done
 done
